@@ -564,12 +564,164 @@ theorem bd_andor (x y z : Ms) (ht : Typed ctx (.andor x y z)) (hx : Typed ctx x)
     · intro ba bb h1 h2; exact ⟨bb + ba, by simp [info, h1, h2, addO], by omega⟩
     · intro ta tb h1 h2; simp [info, h1, h2, concatT, tIF]; omega
 
-/-- no `multi`, `multi_a` or `thresh` in the expression. -/
-def noQuorum : Ms → Bool
-  | .multi _ _ | .multi_a _ _ | .thresh _ _ _ => false
-  | .wrap _ x => noQuorum x
-  | .bin _ x y => noQuorum x && noQuorum y
-  | .andor x y z => noQuorum x && noQuorum y && noQuorum z
+/-! ### the key quorums: `reached[j]` is measured exactly -/
+
+/-- a candidate whose stack, if any, takes at most `B` bytes and has exactly `L` elements. -/
+def Meas (B L : Nat) (i : Input) : Prop :=
+  ∀ w, i.stack = some w → i.size = wsum w ∧ wsum w ≤ B ∧ w.length = L
+
+theorem Meas_none (B L : Nat) : Meas B L noWitness := by intro w h; simp [noWitness] at h
+
+theorem Meas_both {a b : Input} {B1 B2 L1 L2 : Nat} (ha : Meas B1 L1 a) (hb : Meas B2 L2 b) :
+    Meas (B1 + B2) (L1 + L2) (both a b) := by
+  intro w hw
+  obtain ⟨s, t, hs, ht, rfl⟩ := both_some hw
+  obtain ⟨a1, a2, a3⟩ := ha s hs
+  obtain ⟨b1, b2, b3⟩ := hb t ht
+  refine ⟨by simp [both, hs, ht, a1, b1], by rw [wsum_append]; omega, by simp [a3, b3]⟩
+
+theorem Meas_better {a b : Input} {B L : Nat} (ha : Meas B L a) (hb : Meas B L b) :
+    Meas B L (better a b) := by
+  obtain ⟨c, hc, hs, hz, _⟩ := better_pick a b
+  intro w hw
+  rw [hs] at hw; rw [hz]
+  rcases hc with rfl | rfl
+  · exact ha w hw
+  · exact hb w hw
+
+theorem Meas_mono {i : Input} {B B' L L' : Nat} (h : Meas B L i) (hB : B ≤ B') (hL : L = L') :
+    Meas B' L' i := by
+  intro w hw
+  obtain ⟨h1, h2, h3⟩ := h w hw
+  exact ⟨h1, by omega, by omega⟩
+
+theorem Meas_zero : Meas 1 1 zeroPush := by
+  intro w h; simp [zeroPush, element] at h; subst h; simp [zeroPush, element]
+theorem Meas_noPushes : Meas 0 0 noPushes := by
+  intro w h; simp [noPushes] at h; subst h; simp [noPushes]
+
+theorem Meas_sig (hS : SigsSmall ctx env) (k : Key) : Meas (1 + sigSize ctx) 1 (sigInput ctx env k) := by
+  unfold sigInput
+  cases ho : offered ctx env k with
+  | none => exact Meas_none _ _
+  | some σ =>
+    have := hS k σ ho
+    intro w h; simp [element] at h; subst h; simp [element]; omega
+
+/-- from an exact measure to the bound form of the induction. -/
+theorem Bd_of_Meas {i : Input} {B L : Nat} {W : OB} {T : OT} {lv : Int} (h : Meas B L i)
+    (hW : ∃ b, W = some b ∧ B ≤ b) (hT : ∃ t, T = some t ∧ (L : Int) ≤ t.net + lv) : Bd i W T lv := by
+  intro w hw
+  obtain ⟨h1, h2, h3⟩ := h w hw
+  obtain ⟨b, hb, hle⟩ := hW
+  obtain ⟨t, ht, hl⟩ := hT
+  exact ⟨h1, fun _ => ⟨⟨b, hb, by omega⟩, ⟨t, ht, by rw [h3]; exact hl⟩⟩⟩
+
+/-- `reached[j]` of a `multi()`: the dummy and `j` signatures. -/
+def MultiMeas (j : Nat) (i : Input) : Prop := Meas (1 + j * (1 + sigSize ctx)) (j + 1) i
+
+theorem multiMeas_step (hS : SigsSmall ctx env) (k : Key) (r : List Input)
+    (h : AllIdx (MultiMeas ctx) 0 r) :
+    AllIdx (MultiMeas ctx) 0 (multiStep noPushes r (sigInput ctx env k)) := by
+  have skip : ∀ j i, MultiMeas ctx j i → MultiMeas ctx j (both i noPushes) := fun j i hi =>
+    Meas_mono (Meas_both hi Meas_noPushes) (by omega) (by omega)
+  have sign : ∀ j i, MultiMeas ctx j i → MultiMeas ctx (j + 1) (both i (sigInput ctx env k)) := by
+    intro j i hi
+    refine Meas_mono (Meas_both hi (Meas_sig ctx env hS k)) ?_ (by omega)
+    rw [Nat.succ_mul]; omega
+  exact dpStep_idx (MultiMeas ctx) (MultiMeas ctx) _ _ _ (fun a h => skip 0 a h)
+    (fun i p c hp hc => Meas_better (skip (i + 1) c hc) (sign i p hp)) (fun i l h => sign i l h) r h
+
+theorem multiDsat_meas : ∀ k, Meas (k + 1) (k + 1) (multiDsat k)
+  | 0 => Meas_zero
+  | k + 1 => Meas_both (multiDsat_meas k) Meas_zero
+
+theorem bd_multi (hS : SigsSmall ctx env) (k : Nat) (keys : List Key) : BdN ctx env (.multi k keys) := by
+  have hl : lvOf (typeOf ctx (.multi k keys)) = 1 := rfl
+  have hall : ∀ (ks : List Key) (r : List Input), AllIdx (MultiMeas ctx) 0 r →
+      AllIdx (MultiMeas ctx) 0 (ks.foldl (fun r key => multiStep noPushes r (sigInput ctx env key)) r) := by
+    intro ks
+    induction ks with
+    | nil => intro r h; exact h
+    | cons key ks ih => intro r h; exact ih _ (multiMeas_step ctx env hS key r h)
+  have h0 : AllIdx (MultiMeas ctx) 0 [zeroPush] :=
+    ⟨Meas_mono Meas_zero (by omega) (by omega), trivial⟩
+  have hk := AllIdx_getD (MultiMeas ctx) noWitness (fun _ => Meas_none _ _) 0 _ k (hall keys _ h0)
+  simp only [Nat.zero_add] at hk
+  unfold BdN
+  rw [hl]
+  simp only [inputs, multiInput, Bool.false_eq_true, if_false, info]
+  constructor
+  · exact Bd_of_Meas hk ⟨_, rfl, by omega⟩ ⟨_, rfl, by simp⟩
+  · exact Bd_of_Meas (multiDsat_meas k) ⟨_, rfl, by omega⟩ ⟨_, rfl, by simp⟩
+
+/-- `reached[j]` of a `multi_a()` after `m` keys: `j` signatures and `m - j` empty elements. -/
+def MultiAMeas (m j : Nat) (i : Input) : Prop :=
+  ∀ w, i.stack = some w →
+    j ≤ m ∧ i.size = wsum w ∧ wsum w ≤ j * (1 + sigSize ctx) + (m - j) ∧ w.length = m
+
+theorem multiAMeas_step (hS : SigsSmall ctx env) (k : Key) (m : Nat) (r : List Input)
+    (h : AllIdx (MultiAMeas ctx m) 0 r) :
+    AllIdx (MultiAMeas ctx (m + 1)) 0 (multiStep zeroPush r (sigInput ctx env k)) := by
+  have skip : ∀ j i, MultiAMeas ctx m j i → MultiAMeas ctx (m + 1) j (both i zeroPush) := by
+    intro j i hi w hw
+    obtain ⟨s, t, hs, ht, rfl⟩ := both_some hw
+    obtain ⟨h0, h1, h2, h3⟩ := hi s hs
+    obtain ⟨z1, z2, z3⟩ := Meas_zero t ht
+    refine ⟨by omega, by simp [both, hs, ht, h1, z1], by rw [wsum_append]; omega, by simp [h3, z3]⟩
+  have sign : ∀ j i, MultiAMeas ctx m j i →
+      MultiAMeas ctx (m + 1) (j + 1) (both i (sigInput ctx env k)) := by
+    intro j i hi w hw
+    obtain ⟨s, t, hs, ht, rfl⟩ := both_some hw
+    obtain ⟨h0, h1, h2, h3⟩ := hi s hs
+    obtain ⟨z1, z2, z3⟩ := Meas_sig ctx env hS k t ht
+    refine ⟨by omega, by simp [both, hs, ht, h1, z1], ?_, by simp [h3, z3]⟩
+    rw [wsum_append, Nat.succ_mul]; omega
+  refine dpStep_idx (MultiAMeas ctx m) (MultiAMeas ctx (m + 1)) _ _ _ (fun a h => skip 0 a h) ?_
+    (fun i l h => sign i l h) r h
+  intro i p c hp hc w hw
+  obtain ⟨d, hd, hs, hz, _⟩ := better_pick (both c zeroPush) (both p (sigInput ctx env k))
+  rw [hs] at hw; rw [hz]
+  rcases hd with rfl | rfl
+  · exact skip (i + 1) c hc w hw
+  · exact sign i p hp w hw
+
+theorem bd_multi_a (hS : SigsSmall ctx env) (k : Nat) (keys : List Key) (hk1 : 1 ≤ keys.length) :
+    BdN ctx env (.multi_a k keys) := by
+  have hl : lvOf (typeOf ctx (.multi_a k keys)) = 1 := rfl
+  have hall : ∀ (ks : List Key), AllIdx (MultiAMeas ctx ks.length) 0
+      (ks.foldr (fun key r => multiStep zeroPush r (sigInput ctx env key)) [noPushes]) := by
+    intro ks
+    induction ks with
+    | nil =>
+      refine ⟨?_, trivial⟩
+      intro w h; simp [noPushes] at h; subst h; simp [noPushes]
+    | cons key ks ih => exact multiAMeas_step ctx env hS key ks.length _ ih
+  have hget := fun j => AllIdx_getD (MultiAMeas ctx keys.length) noWitness
+    (fun _ w h => by simp [noWitness] at h) 0 _ j (hall keys)
+  unfold BdN
+  rw [hl]
+  simp only [inputs, multiInput, if_true, info]
+  constructor
+  · intro w hw
+    have := hget k w hw
+    simp only [Nat.zero_add] at this
+    obtain ⟨h0, h1, h2, h3⟩ := this
+    refine ⟨h1, fun _ => ⟨⟨_, rfl, by omega⟩, ⟨_, rfl, ?_⟩⟩⟩
+    simp only [h3]; omega
+  · intro w hw
+    have := hget 0 w hw
+    simp only [Nat.zero_add] at this
+    obtain ⟨h0, h1, h2, h3⟩ := this
+    refine ⟨h1, fun _ => ⟨⟨_, rfl, by omega⟩, ⟨_, rfl, ?_⟩⟩⟩
+    simp only [h3]; omega
+
+/-- no `thresh` in the expression. -/
+def noThresh : Ms → Bool
+  | .thresh _ _ _ => false
+  | .wrap _ x => noThresh x
+  | .bin _ x y => noThresh x && noThresh y
+  | .andor x y z => noThresh x && noThresh y && noThresh z
   | _ => true
 
 theorem typed_of_s1Typed_wrap {w : Wrap} {x : Ms} (h : s1Typed ctx (.wrap w x) = true) :
@@ -589,10 +741,10 @@ theorem typed_of_s1Typed : ∀ (n : Ms), s1Typed ctx n = true → Typed ctx n
   | .thresh _ _ _, h => by
     simp only [s1Typed, Bool.and_eq_true, decide_eq_true_eq] at h; exact h.1.1.1.1.1
 
-/-- the satisfier's candidates are within the static bounds, for the expressions without a quorum
-    fragment (the bound soundness of `multi`, `multi_a`, `thresh` is not proved). -/
+/-- the satisfier's candidates are within the static bounds, for the expressions without a
+    `thresh` (whose bound soundness is not proved). -/
 theorem bd_s1 (hS : SigsSmall ctx env) : ∀ (n : Ms), s1Typed ctx n = true → shaped ctx n = true →
-    noQuorum n = true → BdN ctx env n
+    noThresh n = true → BdN ctx env n
   | .f0, _, _, _ => bd_f0 ctx env
   | .f1, _, _, _ => bd_f1 ctx env
   | .pk_k k, _, _, _ => bd_pk_k ctx env hS k
@@ -601,14 +753,14 @@ theorem bd_s1 (hS : SigsSmall ctx env) : ∀ (n : Ms), s1Typed ctx n = true → 
   | .older n, _, _, _ => bd_older ctx env n
   | .after n, _, _, _ => bd_after ctx env n
   | .wrap w x, h, hs, hq => by
-    simp only [noQuorum] at hq
+    simp only [noThresh] at hq
     have ht := typed_of_s1Typed ctx _ h
     simp only [s1Typed, Bool.and_eq_true, Bool.or_eq_true, beq_iff_eq, decide_eq_true_eq] at h
     simp only [shaped] at hs
     refine bd_wrap ctx env w x ?_ ht (typed_of_s1Typed ctx x h.2) (bd_s1 hS x h.2 hs hq)
     rcases h.1.1 with (((((h | h) | h) | h) | h) | h) | h <;> simp [h]
   | .bin b x y, h, hs, hq => by
-    simp only [noQuorum, Bool.and_eq_true] at hq
+    simp only [noThresh, Bool.and_eq_true] at hq
     have ht := typed_of_s1Typed ctx _ h
     simp only [s1Typed, Bool.and_eq_true, Bool.or_eq_true, beq_iff_eq, decide_eq_true_eq] at h
     simp only [shaped, Bool.and_eq_true] at hs
@@ -624,20 +776,23 @@ theorem bd_s1 (hS : SigsSmall ctx env) : ∀ (n : Ms), s1Typed ctx n = true → 
     · exact bd_or_c ctx env x y ht hx hy ix iy
     · exact bd_or_d ctx env x y ht hx hy ix iy
   | .andor x y z, h, hs, hq => by
-    simp only [noQuorum, Bool.and_eq_true] at hq
+    simp only [noThresh, Bool.and_eq_true] at hq
     have ht := typed_of_s1Typed ctx _ h
     simp only [s1Typed, Bool.and_eq_true, decide_eq_true_eq] at h
     simp only [shaped, Bool.and_eq_true] at hs
     exact bd_andor ctx env x y z ht (typed_of_s1Typed ctx x h.1.1.2) (typed_of_s1Typed ctx y h.1.2)
       (typed_of_s1Typed ctx z h.2) (bd_s1 hS x h.1.1.2 hs.1.1 hq.1.1) (bd_s1 hS y h.1.2 hs.1.2 hq.1.2)
       (bd_s1 hS z h.2 hs.2 hq.2)
-  | .multi _ _, _, _, hq | .multi_a _ _, _, _, hq | .thresh _ _ _, _, _, hq => by
-    simp [noQuorum] at hq
+  | .multi k keys, _, _, _ => bd_multi ctx env hS k keys
+  | .multi_a k keys, h, _, _ => by
+    simp only [s1Typed, Bool.and_eq_true, decide_eq_true_eq] at h
+    exact bd_multi_a ctx env hS k keys (by omega)
+  | .thresh _ _ _, _, _, hq => by simp [noThresh] at hq
 
 /-- what `satisfy` returns, when its candidate is canonical, has at most `max_stack_items` elements
     and `max_witness_size` bytes (each element counted with one length byte). -/
 theorem satisfy_within_bounds (hS : SigsSmall ctx env) (n : Ms) (h : s1Typed ctx n = true)
-    (hs : shaped ctx n = true) (hq : noQuorum n = true) (hB : (typeOf ctx n).B = true) (w : List Bytes)
+    (hs : shaped ctx n = true) (hq : noThresh n = true) (hB : (typeOf ctx n).B = true) (w : List Bytes)
     (hsat : satisfy ctx env n = .ok w) (hcan : (inputs ctx env n).sat.nonCanonical = false) :
     (∃ b, maxWitnessSize ctx n = some b ∧ wsum w ≤ b) ∧
     (∃ m, maxStackItems ctx n = some m ∧ (w.length : Int) ≤ m) := by
